@@ -2106,6 +2106,14 @@ unwrap_reference(CPPType *source_type) {
   case CPPDeclaration::ST_reference:
     return source_type->as_reference_type()->_pointing_at;
 
+  case CPPDeclaration::ST_typedef:
+    // A typedef of a reference type is a reference as well (see
+    // is_reference()); any other typedef is left alone.
+    if (is_reference(source_type)) {
+      return unwrap_reference(source_type->as_typedef_type()->_type);
+    }
+    return source_type;
+
   default:
     return source_type;
   }
